@@ -38,10 +38,16 @@ def cases(draw):
                 break
             T = g.value_ty(2)
     e = g.rhs(T, env, 3)
-    placement = draw(st.sampled_from(["local", "global", "nested", "both"]))
+    placement = draw(st.sampled_from(["local", "global", "nested", "both", "global-array"]))
     marker = draw(st.booleans())
     global_exact = draw(st.booleans())
-    return {"program": g.p, "T": T, "e": e, "placement": placement, "marker": marker, "util": g, "global_exact": global_exact}
+    more = []
+    if placement == "global-array":
+        if T.src().startswith("["):
+            placement = "global"
+        else:
+            more = [g.rhs(T, env, 2) for _ in range(g.int(1, 3))]
+    return {"program": g.p, "T": T, "e": e, "placement": placement, "marker": marker, "util": g, "global_exact": global_exact, "more": more}
 
 
 CONVERSION_KEYS = ("C04:global-conversion:", "crash:crates/codegen/src/compiler/functions.rs:called `_` on a `_` value")
@@ -85,6 +91,18 @@ def build(case):
             extra_globals.append(f"gct : {T.src()} : comptime {{ {esrc(e)} }};")
         body.append(PutS("@gct"))
         body += g.print_value(Var("gct", T), T)
+    if pl == "global-array":
+        # a constant global array literal whose items are comptime blocks
+        elems = [e] + case["more"]
+        AT = Array(len(elems), T)
+        items = ", ".join(f"comptime {{ tmp : {T.src()} = {esrc(x)}; tmp }}" for x in elems)
+        extra_globals.append(f"gct :: {T.src()}.[{items}];")
+        body.append(PutS("@gct"))
+        for i in range(len(elems)):
+            body += g.print_value(Index(Var("gct", AT), Lit(USIZE, i), T), T)
+            # the run-time twin of the same element
+            body.append(Let(f"rte{i}", T, False, elems[i]))
+            body += g.print_value(Var(f"rte{i}", T), T)
     main = FnDecl("main", [], VOID, body, None)
     p2 = Program()
     p2.types, p2.consts, p2.fns, p2.externs = p.types, p.consts, [f for f in p.fns if f.name != "main"] + [main], extra_globals
@@ -100,6 +118,8 @@ def check(case, stats, scratch, profile):
     try:
         if case["placement"] in ("global", "both"):
             it.globals["gct"] = interp.Cell(it.ev(e, [{}]))
+        if case["placement"] == "global-array":
+            it.globals["gct"] = interp.Cell([interp.cp(it.ev(x, [{}])) for x in [e] + case["more"]])
         out, status, fault = it.run_main()
     except interp.StepLimit:
         stats.cls("interp-step-limit")
@@ -117,7 +137,7 @@ def check(case, stats, scratch, profile):
     stats.cls("type." + type(t0).__name__)
     stats.cls("placement." + case["placement"])
     shape = type(t0).__name__
-    replay = {"files": {"main.capy": src}, "expect": {"stdout": out}, "marker": bool(case["marker"] and case["placement"] != "global"), "shape": shape,
+    replay = {"files": {"main.capy": src}, "expect": {"stdout": out}, "marker": bool(case["marker"] and case["placement"] in ("local", "both", "nested")), "shape": shape,
               "global_exact": global_is_exact(case)}
     if case["placement"] in ("global", "both"):
         stats.cls("global-form." + ("exact-type" if global_is_exact(case) else "implicit-conversion"))
@@ -192,6 +212,11 @@ FIXED = [
     ("struct-with-str", 'puts :: (s: str) -> i32 extern;\nP :: struct { name: str, n: i32 };\nmain :: () {\n    ct : P = comptime { P.{ name = "inside", n = 3 } };\n    puts(ct.name);\n}\n', "inside\n"),
     ("array-loop", 'printf :: (fmt: str, n: i64) -> i32 extern;\nmain :: () {\n    ct : [4]u16 = comptime { a : [4]u16; i : usize = 0; while i < 4 { a[i] = u16.(i * i + 1); i += 1; } a };\n    printf("%ld\\n", i64.(ct[0])); printf("%ld\\n", i64.(ct[3]));\n}\n', "1\n10\n"),
     ("reads-const-global", 'printf :: (fmt: str, n: i64) -> i32 extern;\nK : i64 : 41;\nG : i64 : comptime { K + 1 };\nmain :: () {\n    printf("%ld\\n", G);\n    printf("%ld\\n", comptime { G * 2 });\n}\n', "42\n84\n"),
+    ("float-globals", 'printf :: (fmt: str, n: i64) -> i32 extern;\nbits32 :: (x: f32) -> u32 { (^u32.(rawptr.(^x)))^ }\nbits64 :: (x: f64) -> u64 { (^u64.(rawptr.(^x)))^ }\nhalf :: (x: f32) -> f32 { x / 2.0 }\n'
+     'ga : f32 : comptime { x : f32 = 6.5; half(x) + 0.25 };\ngb : f64 : comptime { x : f64 = 6.5; x / 2.0 + 0.25 };\ngc : f32 : comptime { y : f32 = 0.1; y };\ngd : f32 : comptime { y : f32 = -2.25; y * 3.0 };\n'
+     'main :: () {\n    ra : f32 = { x : f32 = 6.5; half(x) + 0.25 };\n    rc : f32 = 0.1;\n    rd : f32 = { y : f32 = -2.25; y * 3.0 };\n'
+     '    printf("%ld\\n", i64.(bits32(ga) == bits32(ra)));\n    printf("%ld\\n", i64.(bits32(ga)));\n    printf("%ld\\n", i64.(bits64(gb)));\n    printf("%ld\\n", i64.(bits32(gc) == bits32(rc)));\n    printf("%ld\\n", i64.(bits32(gd) == bits32(rd)));\n    printf("%ld\\n", i64.(bits32(gd)));\n}\n',
+     f"1\n{_struct.unpack('<I', _struct.pack('<f', 3.5))[0]}\n{_struct.unpack('<q', _struct.pack('<d', 3.5))[0]}\n1\n1\n{_struct.unpack('<I', _struct.pack('<f', -6.75))[0]}\n"),
     ("side-effect-once", 'puts :: (s: str) -> i32 extern;\nprintf :: (fmt: str, n: i64) -> i32 extern;\nG : i64 : comptime { puts("CT_MARKER_7f3a"); 5 };\nmain :: () {\n    printf("%ld\\n", G);\n    printf("%ld\\n", G + G);\n}\n', "5\n10\n"),
 ]
 
@@ -208,7 +233,7 @@ def replay_payload(payload, scratch):
 
 
 RULE = ("generated pure expression B of a generated type T (ints of every width, bool, char, arrays, structs, enums, optionals, error unions, distinct; nested; calling pure "
-        "functions and reading const globals) evaluated as `rt : T = B`, `ct : T = comptime { B }` (local, nested) and a global `g : T : comptime { B }`, all printed leaf by leaf; "
+        "functions and reading const globals) evaluated as `rt : T = B`, `ct : T = comptime { B }` (local, nested), a global `g : T : comptime { B }` and a constant global array `T.[comptime { B1 }, comptime { B2 }, ...]`, all printed leaf by leaf; "
         "a puts-marker side effect in half of the local comptime blocks; plus 8 fixed programs for floats, `type`, `str`, loops and global side effects. "
         "Non-trivial = result type is not a bare i32 (aggregate, sum type, other widths, float, str, type); distinct by program text.")
 
